@@ -106,3 +106,6 @@ W long v_strtol(const char *a, char **e, int b) { return strtol(a, e, b); }
 W long long v_strtoll(const char *a, char **e, int b) { return strtoll(a, e, b); }
 W unsigned long v_strtoul(const char *a, char **e, int b) { return strtoul(a, e, b); }
 W unsigned long long v_strtoull(const char *a, char **e, int b) { return strtoull(a, e, b); }
+W int v_rename(const char *a, const char *b) { return rename(a, b); }
+W int v_unlink(const char *a) { return unlink(a); }
+W int v_remove(const char *a) { return remove(a); }
